@@ -209,7 +209,7 @@ def warmup(tier):
 
 def parts(tier):
     versions = QUICK if tier == "quick" else ALL
-    nv, nm = (1500, 2500) if tier == "quick" else (120000, 200000)
+    nv, nm = (1500, 4000) if tier == "quick" else (120000, 200000)
     sweep_versions = ["8.3.0"] if tier == "quick" else ALL
     return [Part("valid", oracle_valid, strategy=valid_strategy(versions), n=nv),
             Part("mutated", oracle_mutated, strategy=mutated_strategy(versions), n=nm),
